@@ -16,15 +16,17 @@ VARIABLES ver, cwd, hist
 vars == <<ver, cwd, hist>>
 Init == ver = [f \in Files |-> 1] /\ cwd = 1 /\ hist = <<>>
 Do(op) == /\ Len(hist) < MAXLEN
-          /\ hist' = Append(hist, [op |-> op, key |-> Key(op, ver), cwd |-> cwd])
+          /\ hist' = Append(hist, [op |-> op, key |-> Key(op, ver, cwd), cwd |-> cwd])
           /\ UNCHANGED <<ver, cwd>>
 Touch(f) == /\ Len(hist) < MAXLEN /\ ver[f] = 1
             /\ ver' = [ver EXCEPT ![f] = 2]
-            /\ hist' = Append(hist, [op |-> "touch_" \o f, key |-> <<"touch_" \o f, <<>>>>, cwd |-> cwd]) /\ UNCHANGED cwd
+            /\ hist' = Append(hist, [op |-> "touch_" \o f, key |-> <<"touch_" \o f, <<>>, 0>>, cwd |-> cwd]) /\ UNCHANGED cwd
 Chdir == /\ Len(hist) < MAXLEN /\ cwd = 1 /\ cwd' = 2
-         /\ hist' = Append(hist, [op |-> "chdir", key |-> <<"chdir", <<>>>>, cwd |-> 2]) /\ UNCHANGED ver
+         /\ hist' = Append(hist, [op |-> "chdir", key |-> <<"chdir", <<>>, 0>>, cwd |-> 2]) /\ UNCHANGED ver
 Next == (\E op \in OPS : Do(op)) \/ Touch("fw") \/ Chdir
 Spec == Init /\ [][Next]_vars
-SameKeySameInputs == \A i, j \in 1..Len(hist) : hist[i].key = hist[j].key => Canon(hist[i].op) = Canon(hist[j].op)
+SameKeySameInputs == \A i, j \in 1..Len(hist) : hist[i].key = hist[j].key =>
+                        /\ Canon(hist[i].op) = Canon(hist[j].op)
+                        /\ (hist[i].op \in CwdOps => hist[i].cwd = hist[j].cwd)
 Emit == (EMIT /\ Len(hist) = MAXLEN) => PrintT("SCN " \o ToJson([i \in 1..Len(hist) |-> hist[i].op]))
 =============================================================================
